@@ -2,8 +2,32 @@ package c13
 
 import "verif/harness/pbt"
 
+// restartDuringDrainCase is the breaker's sequence (round 7, remark 1) on a generic PacketConn:
+// a handler of run 1 is held, ShutdownContext gives up on its context, the same Server value is
+// started again at once, a handler of run 2 is held too, Shutdown() of run 2 is called, and while it
+// waits the handler of run 1 is let go: the serve loop of run 1 then closes Server.shutdown - which
+// since the second init() is the channel of run 2 - so Shutdown 2 returns nil under run 2's handler,
+// and when run 2's own serve loop is done it closes the channel once more and panics.
+func restartDuringDrainCase() Scenario {
+	return Scenario{
+		Transport: "memPacket", MaxTCP: -1,
+		Clients:    []Client{{Reqs: []Req{{Mode: "late", Until: "release"}}, Close: "end"}},
+		Trigger:    "handler.enter(1,1)",
+		FallbackMs: 150, HoldMs: 5,
+		Ctx:     "expired",
+		Misuse:  []Misuse{{Op: "restartAfterShutdown"}},
+		Restart: Restart{When: "drain", Reqs: []string{"late"}, At: "entered", HoldMs: 20, Release1: "held2"},
+	}
+}
+
 func init() {
+	pbt.Probe(knownRestartDrain, func() error {
+		_, err := runScenario(restartDuringDrainCase())
+		return err
+	})
 	pbt.Register(pbt.Sub[Scenario]{Name: "scenario-mem", Weight: 1, Gen: genMem, Check: checkScenario})
 	pbt.Register(pbt.Sub[Scenario]{Name: "scenario-real", Weight: 0.3, Gen: genReal, Check: checkScenario})
+	// restarts of the same Server value: after a Shutdown that completed or gave up on its context, and during the drain
+	pbt.Register(pbt.Sub[Scenario]{Name: "scenario-restart", Weight: 0.15, Gen: genRestart, Check: checkScenario})
 	pbt.Register(pbt.Sub[Stress]{Name: "stress", Weight: 0.5, Gen: genStress, Check: checkStress})
 }
